@@ -11,7 +11,8 @@ Record c07case := {
   c7_raw : result (list (list Z));
   c7_dual : result (list (list Z));
   c7_same_dual : N;      (* 1: raw and dual dictionaries reach the same optimum on the probe sentences; 0: not; 2: not comparable *)
-  c7_same_matrix : N
+  c7_same_matrix : N;
+  c7_split : option (list N)   (* template positions the implementation pre-summed (hook verif_last_dual_split); None: no dual dictionary *)
 }.
 
 Definition zmat_eqb (a b : list (list Z)) : bool := list_eqb (list_eqb Z.eqb) a b.
@@ -59,6 +60,22 @@ Definition c07_corr_dual (c : c07case) : bool :=
   | Some _, _ => true
   end.
 
+(** the model of the dual connector evaluated with the implementation's own split: it gives the
+    implementation's dual costs, clamped pre-sums included *)
+Definition tmpl_k (c : c07case) : nat := fold_right Nat.max 0%nat (map (@length _) (c7_right c ++ c7_left c)).
+Definition real_mask (c : c07case) : option (list bool) :=
+  match c7_split c with
+  | Some s => Some (map (fun p => mem_N (N.of_nat p) s) (seq 0 (tmpl_k c)))
+  | None => None
+  end.
+Definition c07_corr_dual_real (c : c07case) (mask : list bool) : bool :=
+  let nr := S (length (c7_right c)) in let nl := S (length (c7_left c)) in
+  match build_dual (N.to_nat 4000) mask (c7_right c) (c7_left c) (c7_cost c), c7_dual c with
+  | Some dc, Ok m => zmat_eqb (matrix_of (dual_cost dc) nr nl) m
+  | None, _ => false
+  | Some _, _ => false
+  end.
+
 (** partial sums over any subset of positions fit 16 bits when the sum of absolute values does *)
 Definition abs_sum (c : c07case) (r l : N) : Z :=
   let k := fold_right Nat.max 0%nat (map (@length _) (c7_right c ++ c7_left c)) in
@@ -70,7 +87,32 @@ Definition abs_sum (c : c07case) (r l : N) : Z :=
 Definition presum_fits (c : c07case) : bool :=
   forallb (fun r => forallb (fun l => in_i16 (abs_sum c r l)) (ids (S (length (c7_left c))))) (ids (S (length (c7_right c)))).
 
-Definition c07_corr (c : c07case) : bool := c07_corr_raw c && (star_listed c || negb (presum_fits c) || c07_corr_dual c).
+(** the pre-summed part under the implementation's own split: the sum of the listed costs over the
+    positions of the matrix part *)
+Definition part_sum (c : c07case) (mask : list bool) (r l : N) : Z :=
+  let k := tmpl_k c in
+  fold_right Z.add 0
+    (map (fun p => if nth p mask false then
+                     match feature_at (c7_right c) r p k, feature_at (c7_left c) l p k with
+                     | Some a, Some b => match table_get (c7_cost c) a b None with Some x => x | None => 0 end
+                     | _, _ => 0
+                     end
+                   else 0) (seq 0 k)).
+(** "whenever the pre-summed part fits in 16 bits": decided with the implementation's split when
+    the hook reports one, with the bound over all splits otherwise *)
+Definition fits (c : c07case) : bool :=
+  match real_mask c with
+  | Some mask => forallb (fun r => forallb (fun l => in_i16 (part_sum c mask r l)) (ids (S (length (c7_left c))))) (ids (S (length (c7_right c))))
+  | None => presum_fits c
+  end.
+
+Definition c07_corr (c : c07case) : bool :=
+  c07_corr_raw c
+  && match real_mask c with
+     | Some mask => c07_corr_dual_real c mask
+     | None => match c7_dual c with Ok _ => false | _ => true end   (* a dual dictionary always reports its split *)
+     end
+  && (star_listed c || negb (presum_fits c) || c07_corr_dual c).
 
 Definition c07_oracle_gen (c : c07case) : bool :=
   match c7_raw c with
@@ -78,10 +120,10 @@ Definition c07_oracle_gen (c : c07case) : bool :=
   | _ => false                                   (* well-formed files must build *)
   end
   && match c7_dual c with
-     | Ok m => if presum_fits c then zmat_eqb m (spec_matrix c) else true
+     | Ok m => if fits c then zmat_eqb m (spec_matrix c) else true
      | _ => false
      end
-  && (if presum_fits c then negb (c7_same_dual c =? 0)%N else true)
+  && (if fits c then negb (c7_same_dual c =? 0)%N else true)
   && negb (c7_same_matrix c =? 0)%N.
 
 Definition c07_oracle (c : c07case) : bool := c07_oracle_gen c.
@@ -94,7 +136,7 @@ Definition c07_known (c : c07case) : bool :=
      | _ => false
      end
   && match c7_dual c with
-     | Ok m => if presum_fits c then zmat_eqb m (matrix_of (spec_cost (c7_right c) (c7_left c) (c7_cost c)) (S (length (c7_right c))) (S (length (c7_left c)))) else true
+     | Ok m => if fits c then zmat_eqb m (matrix_of (spec_cost (c7_right c) (c7_left c) (c7_cost c)) (S (length (c7_right c))) (S (length (c7_left c)))) else true
      | _ => false
      end.
 
